@@ -280,6 +280,14 @@ def closure_templates():
         ("fn o(a) { let f = fn() { return a; }; a = a + 1; let g = fn() { return a; }; return f() * 1000 + g(); } puts(o(1));", "1002\n"),
         ("let a = [1]; fn mk() { let l = a; return fn() { return l[0]; }; } let c = mk(); a[0] = 7; puts(c());", "7\n"),
         ("fn f() { { let t = 1; } return 2; } puts(f());", "2\n"),
+        # a function that outlives its block keeps reading and writing the block's binding, whatever is bound afterwards
+        ("let keep = []; { let h = 41; fn f() { h = h + 1; return h; } push(keep, f); } { let lim = 7; puts(lim); } puts(keep[0]()); puts(keep[0]());", "7\n42\n43\n"),
+        ("let m = map {}; { let hits = 40; m[\"inc\"] = fn() { hits = hits + 1; return hits; }; m[\"get\"] = fn() { return hits; }; } { let limit = 7; puts(limit); let other = 100; puts(m[\"inc\"]()); puts(limit); puts(other); } puts(m[\"get\"]());", "7\n41\n7\n100\n41\n"),
+        ("let g = null; { let a = 1; { let b = 2; g = fn() { return a * 10 + b; }; } let c = 3; puts(c); } let d = 4; let e = 5; puts(g()); puts(d + e);", "3\n12\n9\n"),
+        ("let fs = []; let i = 0; while i < 3 { let v = i * 10; push(fs, fn() { return v; }); i = i + 1; } let z = 99; puts(fs[0](), \" \", fs[1](), \" \", fs[2](), \" \", z);", None),
+        ("fn mk() { let fs = []; let i = 0; while i < 3 { let v = i * 10; push(fs, fn() { return v; }); i = i + 1; } return fs; } let fs = mk(); puts(fs[0](), \" \", fs[1](), \" \", fs[2]());", "0 10 20\n"),
+        ("{ let x = 5; fn get() { return x; } { let y = 6; puts(get() + y); } } { let w = 70; let v = 80; puts(w + v); }", "11\n150\n"),
+        ("let out = []; { let p = 1; push(out, fn() { p = p + 1; return p; }); } { let q = 50; push(out, fn() { q = q + 1; return q; }); } puts(out[0](), \" \", out[1](), \" \", out[0](), \" \", out[1]());", "2 51 3 52\n"),
     ]
 
 
@@ -292,6 +300,8 @@ UNDEF = [
 
 def gen(tier, rng):
     for k, (prog, want) in enumerate(closure_templates()):
+        if want is None:
+            continue      # shape kept for documentation: a global re-bound in a loop body is one binding per iteration or one in all - the property does not say
         yield dict(id="tmpl/%d" % k, prog=prog, batch=True,
                    check=(lambda r, want=want, prog=prog: no_panic(r) or (None if r.text == want and "rror" not in r.etext else "%s: expected %r, got %r %r" % (prog, want, r.text[:80], r.etext[:160]))))
     for k, prog in enumerate(UNDEF):
